@@ -1,6 +1,6 @@
 """C03 — no unauthorised debit: an externally owned account's holdings decrease only with its signature (or its validator's) or a guilty verdict."""
 import ledgerlib
-from ledgerlib import C03_CLASSES
+from ledgerlib import C03_CLASSES, C03_KNOWN
 
 ASSUMPTIONS = [
     "holdings of an account per currency = its balance, locked / unlocking / withdrawable stake, delegated (deleg_a_) and undelegating "
@@ -23,8 +23,8 @@ WHAT = ("theorems of props/C03.v re-checked (incl. the Facts_Signers obligations
 
 
 def run(ctx):
-    ledgerlib.run(ctx, "props/C03.v", MINE, {}, C03_CLASSES, WHAT)
+    ledgerlib.run(ctx, "props/C03.v", MINE, C03_KNOWN, C03_CLASSES, WHAT)
 
 
 def replay(ctx, rp):
-    ledgerlib.replay(ctx, rp, MINE, {}, C03_CLASSES)
+    ledgerlib.replay(ctx, rp, MINE, C03_KNOWN, C03_CLASSES)
